@@ -117,12 +117,23 @@ def protocol(entries):
             up = un[:cut]
             sp = st["shared"]
             cut2 = next((i for i, e in enumerate(sp) if e[0] not in ATOMIC), len(sp))
-            if shape(sp[:cut2][:len(up)]) != shape(up):
-                raise Inexpressible("%s: different count operations in the unique and the shared case before the decision: %s vs %s"
-                                    % (name, up, sp))
-            if not up:
-                raise Inexpressible("%s decides uniqueness without reading the count" % name)
-            uniqs[api].setdefault(prog(up), []).append(name)
+            # the gate is the common prefix of the two runs up to the last event that saw different values (what follows
+            # belongs to the branches: the grant, or the clone and the release of the old value)
+            sa = sp[:cut2]
+            n = 0
+            while n < min(len(up), len(sa)) and shape([up[n]]) == shape([sa[n]]):
+                n += 1
+            if n == 0:
+                raise Inexpressible("%s decides uniqueness without reading the count (or starts differently in the unique and the "
+                                    "shared case): %s vs %s" % (name, up, sa))
+            didx = None
+            for i in range(n):
+                if up[i][0] in ("rmw", "load") and up[i][3] != sa[i][3]:
+                    didx = i
+            if didx is None:
+                raise Inexpressible("%s: no count operation of the common prefix sees the difference between the unique and the "
+                                    "shared case: %s vs %s" % (name, up, sa))
+            uniqs[api].setdefault(prog(up[:didx + 1], idx=didx), []).append(name)
             if "shared_then_last" in st:
                 tail = st["shared_then_last"]
                 if any(e[0] == "cloneval" for e in tail):
